@@ -89,7 +89,7 @@ def run(ctx):
     th.start()
     # meanwhile, on the real implementation (no Coq needed)
     coll = O.Collector()
-    for stage in (lambda: O.correspond(ctx, facts, coll), lambda: O.search_finders(ctx), lambda: O.search_probes(ctx),
+    for stage in (lambda: O.search_witnesses(ctx), lambda: O.correspond(ctx, facts, coll), lambda: O.search_finders(ctx), lambda: O.search_probes(ctx),
                   lambda: O.search_probes_general(ctx), lambda: O.search_probes_restricted(ctx)):
         try:
             stage()
